@@ -200,6 +200,130 @@ func TestC19InProcess(t *testing.T) {
 	rec.Require("history", "non-trivial (>= 1 error ack and >= 1 success)", 20)
 }
 
+// TestC19FreshInstance: the answer to a history is a function of the committed store and the
+// input only. Each case is a pair (warm-up, history). The history is replayed on (a) a BRAND-NEW
+// application instance, (b) a second brand-new instance that first executed the warm-up on a
+// branch that was then DISCARDED (as a failed transaction, a CheckTx or a simulation is), and
+// (c) the long-lived instance that has processed every earlier case of this process. Anything the
+// module keeps outside the store - caches, memoised validations, counters in controller objects -
+// makes (b) or (c) answer differently from (a).
+type caseC19Fresh struct {
+	Warmup  kit.History `json:"warmup"`
+	History kit.History `json:"history"`
+}
+
+func TestC19FreshInstance(t *testing.T) {
+	w1 := prod(t)
+	rec := kit.NewRecorder(t, "C19")
+	opt := c19Opt(w1)
+	opt.MaxSteps = 10
+	rapid.Check(t, func(rt *rapid.T) {
+		c := caseC19Fresh{Warmup: kit.GenHistory(rt, opt), History: kit.GenHistory(rt, opt)}
+		if kit.Chance(rt, "siblings", 60) {
+			c = genC19Siblings(rt, w1)
+		}
+		rec.Eval()
+		if err := runC19Fresh(w1, c, rec); err != nil {
+			rec.Fail(rt, c, "%v", err)
+		}
+	})
+}
+
+// genC19Siblings aims at memoised decisions: the warm-up makes valid transfers, the history then
+// sends SIBLINGS of them - the same transfer with one thing changed so that it must now be judged
+// differently (another denomination through the same Hyperlane token, the same route after a
+// pause, a larger amount, another recipient) - with coins of every Hyperlane denomination sitting
+// on the orbiter account, so that a wrongly accepted sibling can even be paid for.
+func genC19Siblings(t *rapid.T, w *world.World) caseC19Fresh {
+	var c caseC19Fresh
+	n := 1 + rapid.IntRange(0, 2).Draw(t, "sib/n")
+	var valid []kit.Transfer
+	for i := 0; i < n; i++ {
+		tr := genC08Probe(t, w)
+		if kit.Chance(t, fmt.Sprintf("sib/%d/hyp", i), 50) {
+			if _, has := w.HypToken[tr.Denom]; has {
+				tr.Route = kit.GenRoute(t, w, tr.Denom, kit.RouteOpt{EnvValid: true, Kinds: []string{"hyp"}})
+			}
+		}
+		valid = append(valid, tr)
+		c.Warmup = append(c.Warmup, kit.Step{Packet: &tr})
+	}
+	for _, d := range []string{world.Uusdc, world.Ufoo} {
+		if kit.Chance(t, "sib/deposit/"+d, 80) {
+			c.History = append(c.History, kit.Step{Env: &kit.Env{Kind: "deposit", User: pick(t, "sib/deposit/user/"+d, kit.PlainUsers), Denom: d, Amount: "999999999"}})
+		}
+	}
+	for i, v := range valid {
+		l := fmt.Sprintf("sib/%d", i)
+		sib := v
+		sib.Actions = append([]kit.Action{}, v.Actions...)
+		switch pick(t, l+"/change", []string{"denom", "denom", "same", "amount", "recipient", "paused", "other-token"}) {
+		case "denom":
+			// everything as before, another denomination (small amount, no fees)
+			var others []string
+			for _, d := range []string{world.Uusdc, world.Ufoo, world.Gamm} {
+				if d != v.Denom {
+					others = append(others, d)
+				}
+			}
+			sib.Denom = pick(t, l+"/denom", others)
+			sib.Amount = fmt.Sprint(1 + rapid.IntRange(0, 999).Draw(t, l+"/amount"))
+			sib.Actions = nil
+		case "same":
+		case "amount":
+			sib.Amount = pick(t, l+"/amountv", []string{"1", "1000000001", "999999999999"})
+			sib.Actions = nil
+		case "recipient":
+			if sib.Route.Kind == "internal" {
+				sib.Route.To = pick(t, l+"/to", []string{world.OrbiterAddr.String(), world.DustAddr.String(), kit.PlainUser(t, l+"/user")})
+			} else {
+				sib.Route.Recipient, sib.Route.MintRecipient = kit.Bytes32(t, l+"/r"), kit.Bytes32(t, l+"/m")
+			}
+		case "paused":
+			proto := map[string]string{"cctp": "PROTOCOL_CCTP", "hyp": "PROTOCOL_HYPERLANE", "internal": "PROTOCOL_INTERNAL"}[sib.Route.Kind]
+			c.History = append(c.History, kit.Step{Admin: &kit.Admin{Kind: "pause_protocol", Protocol: proto}})
+		case "other-token":
+			if sib.Route.Kind == "hyp" {
+				sib.Route, _ = kit.CrossedTokenRoute(t, w, l+"/crossed", sib.Denom)
+			}
+		}
+		c.History = append(c.History, kit.Step{Packet: &sib})
+	}
+	return c
+}
+
+func runC19Fresh(long *world.World, c caseC19Fresh, rec *kit.Recorder) error {
+	fresh, err := world.New(world.Options{})
+	if err != nil {
+		return fmt.Errorf("harness: building a fresh instance failed: %w", err)
+	}
+	warm, err := world.New(world.Options{})
+	if err != nil {
+		return fmt.Errorf("harness: building a fresh instance failed: %w", err)
+	}
+	transcript(warm, c.Warmup) // runs on a branch of the root state that is dropped
+	lf, _ := transcript(fresh, c.History)
+	lw, _ := transcript(warm, c.History)
+	ll, _ := transcript(long, c.History)
+	errs, oks := historyStats(fresh, c.History, lf)
+	if errs >= 1 && oks >= 1 {
+		rec.NonTrivial(kit.JSON(c))
+		rec.Label("fresh", "non-trivial (>= 1 error ack and >= 1 success)")
+		rec.Sample("warmup+history", c)
+	} else {
+		rec.Label("fresh", "trivial")
+	}
+	for i := range lf {
+		if lf[i] != lw[i] {
+			return fmt.Errorf("an instance that executed and DISCARDED a warm-up history answers differently from a fresh one at line %d (state kept outside the store):\n  fresh:  %s\n  warmed: %s", i, trunc(lf[i]), trunc(lw[i]))
+		}
+		if lf[i] != ll[i] {
+			return fmt.Errorf("the long-lived instance of this process answers differently from a fresh one at line %d (state kept outside the store; reproduces only after the earlier cases of the run):\n  fresh:      %s\n  long-lived: %s", i, trunc(lf[i]), trunc(ll[i]))
+		}
+	}
+	return nil
+}
+
 // TestC19CrossProcess writes one digest line per generated history to VERIF_TRANSCRIPT; the
 // driver runs it in two separate processes with the same seed and compares the files.
 func TestC19CrossProcess(t *testing.T) {
@@ -236,6 +360,13 @@ func TestC19CrossProcess(t *testing.T) {
 }
 
 func init() {
+	kit.RegisterReplay("TestC19FreshInstance", func(raw json.RawMessage) error {
+		c, err := decode[caseC19Fresh](raw)
+		if err != nil {
+			return fmt.Errorf("harness: %w", err)
+		}
+		return runC19Fresh(prodW, c, nil)
+	})
 	kit.RegisterReplay("TestC19InProcess", func(raw json.RawMessage) error {
 		c, err := decode[caseHistory](raw)
 		if err != nil {
